@@ -1,11 +1,19 @@
-//! Batch runner, statistics, minimiser, replay files and evidence writer.
+//! Batch runner (one single-threaded simulator process per worker), statistics,
+//! minimiser, replay files and evidence writer.
+//!
+//! Workers are separate processes because gdsl has process-global state (the
+//! mutation lock of the sync flavours): two simulations inside one process
+//! would meet on it, and a lock held by another simulation is a source of
+//! nondeterminism the simulator does not own.
 
 use crate::rng::{self, Rng};
 use serde::{de::DeserializeOwned, Deserialize, Serialize};
 use serde_json::{json, Value};
 use std::collections::{BTreeMap, BTreeSet};
+use std::io::{BufRead, BufReader, Write};
+use std::process::{Command, Stdio};
 use std::sync::atomic::{AtomicU64, Ordering};
-use std::sync::Mutex;
+use std::sync::{Arc, Mutex};
 use std::time::{Duration, Instant};
 
 #[derive(Clone, Copy, Debug, PartialEq, Eq)]
@@ -19,6 +27,13 @@ impl Tier {
         match self {
             Tier::Quick => "quick",
             Tier::Thorough => "thorough",
+        }
+    }
+    pub fn parse(s: &str) -> Option<Tier> {
+        match s {
+            "quick" => Some(Tier::Quick),
+            "thorough" => Some(Tier::Thorough),
+            _ => None,
         }
     }
 }
@@ -39,12 +54,91 @@ impl Violation {
     }
 }
 
+pub const BITMAP_BITS: usize = 1 << 24;
+
+/// Fixed-size sketch of a set of 64-bit fingerprints: the number of set bits
+/// is a lower bound of the number of distinct fingerprints (collisions only
+/// undercount), and sketches of different worker processes merge by OR.
+#[derive(Clone, Debug)]
+pub struct Bitmap {
+    pub words: Vec<u64>,
+}
+
+impl Default for Bitmap {
+    fn default() -> Self {
+        Bitmap {
+            words: vec![0; BITMAP_BITS / 64],
+        }
+    }
+}
+
+impl Bitmap {
+    pub fn set(&mut self, h: u64) {
+        let i = (rng::mix(h) as usize) % BITMAP_BITS;
+        self.words[i / 64] |= 1 << (i % 64);
+    }
+    pub fn count(&self) -> u64 {
+        self.words.iter().map(|w| w.count_ones() as u64).sum()
+    }
+    pub fn or(&mut self, o: &Bitmap) {
+        for (a, b) in self.words.iter_mut().zip(&o.words) {
+            *a |= *b;
+        }
+    }
+    fn indices(&self) -> Vec<u32> {
+        let mut v = Vec::new();
+        for (wi, w) in self.words.iter().enumerate() {
+            let mut w = *w;
+            while w != 0 {
+                let b = w.trailing_zeros();
+                v.push((wi * 64) as u32 + b);
+                w &= w - 1;
+            }
+        }
+        v
+    }
+    pub fn to_bytes(&self) -> Vec<u8> {
+        let idx = self.indices();
+        if idx.len() * 4 < BITMAP_BITS / 8 {
+            let mut out = vec![b'S'];
+            for i in idx {
+                out.extend_from_slice(&i.to_le_bytes());
+            }
+            out
+        } else {
+            let mut out = vec![b'D'];
+            for w in &self.words {
+                out.extend_from_slice(&w.to_le_bytes());
+            }
+            out
+        }
+    }
+    pub fn from_bytes(b: &[u8]) -> Bitmap {
+        let mut m = Bitmap::default();
+        match b.first() {
+            Some(b'S') => {
+                for c in b[1..].chunks_exact(4) {
+                    let i = u32::from_le_bytes([c[0], c[1], c[2], c[3]]) as usize;
+                    m.words[i / 64] |= 1 << (i % 64);
+                }
+            }
+            Some(b'D') => {
+                for (w, c) in m.words.iter_mut().zip(b[1..].chunks_exact(8)) {
+                    *w = u64::from_le_bytes([c[0], c[1], c[2], c[3], c[4], c[5], c[6], c[7]]);
+                }
+            }
+            _ => {}
+        }
+        m
+    }
+}
+
 #[derive(Default, Clone, Debug)]
 pub struct Stats {
     pub counters: BTreeMap<String, u64>,
-    pub distinct: BTreeMap<String, BTreeSet<u64>>,
+    pub distinct: BTreeMap<String, Bitmap>,
     pub samples: Vec<Value>,
-    /// violations that were attributed to another property (not a verdict here)
+    /// observations attributed to another property (not a verdict here)
     pub notes: BTreeSet<String>,
 }
 
@@ -53,16 +147,24 @@ impl Stats {
         *self.counters.entry(k.to_string()).or_insert(0) += 1;
     }
     pub fn add(&mut self, k: &str, n: u64) {
-        *self.counters.entry(k.to_string()).or_insert(0) += n;
+        if n > 0 {
+            *self.counters.entry(k.to_string()).or_insert(0) += n;
+        }
     }
     pub fn mark(&mut self, k: &str, h: u64) {
-        self.distinct.entry(k.to_string()).or_default().insert(h);
+        if let Some(b) = self.distinct.get_mut(k) {
+            b.set(h);
+        } else {
+            let mut b = Bitmap::default();
+            b.set(h);
+            self.distinct.insert(k.to_string(), b);
+        }
     }
     pub fn get(&self, k: &str) -> u64 {
         *self.counters.get(k).unwrap_or(&0)
     }
     pub fn count(&self, k: &str) -> u64 {
-        self.distinct.get(k).map(|s| s.len() as u64).unwrap_or(0)
+        self.distinct.get(k).map(|s| s.count()).unwrap_or(0)
     }
     pub fn sample(&mut self, v: Value) {
         if self.samples.len() < 3 {
@@ -79,14 +181,21 @@ impl Stats {
             *self.counters.entry(k).or_insert(0) += v;
         }
         for (k, v) in o.distinct {
-            self.distinct.entry(k).or_default().extend(v);
+            match self.distinct.get_mut(&k) {
+                Some(b) => b.or(&v),
+                None => {
+                    self.distinct.insert(k, v);
+                }
+            }
         }
         for s in o.samples {
             if self.samples.len() < 4 {
                 self.samples.push(s);
             }
         }
-        self.notes.extend(o.notes);
+        for n in o.notes {
+            self.note(n);
+        }
     }
 }
 
@@ -99,15 +208,107 @@ pub trait Engine: Sync {
     fn execute(&self, sc: &Self::Sc, stats: &mut Stats) -> Option<(Violation, Self::Sc)>;
     /// Simpler candidate scenarios, most aggressive first.
     fn shrink(&self, sc: &Self::Sc) -> Vec<Self::Sc>;
-    /// size measure used to report minimisation progress
+    /// size measure: minimisation only accepts strictly smaller scenarios
     fn size(&self, sc: &Self::Sc) -> usize;
 }
 
-pub struct BatchOut<S> {
+/// Type-erased engine (scenarios as JSON values) so that worker processes and
+/// replay can look an engine up by key.
+pub trait DynEngine: Sync {
+    fn engine_name(&self) -> &'static str;
+    #[allow(clippy::too_many_arguments)]
+    fn run_range(&self, tag: &str, seed: u64, tier: Tier, offset: u64, stride: u64, runs: u64, cap: Duration, progress: &mut dyn FnMut(u64)) -> WorkerOut;
+    fn minimise_dyn(&self, sc: Value, v: Violation, budget: Duration) -> (Value, Violation, u64, usize, usize);
+    fn replay_dyn(&self, sc: &Value) -> Result<Option<Violation>, String>;
+    /// the event log of one seeded run, for the determinism self-test
+    fn log_run(&self, tag: &str, seed: u64, tier: Tier, index: u64) -> String;
+    fn generate_dyn(&self, tag: &str, seed: u64, tier: Tier, index: u64) -> Value;
+}
+
+pub struct WorkerOut {
     pub runs: u64,
     pub stats: Stats,
-    pub violation: Option<(u64, Violation, S)>,
-    pub wall: Duration,
+    pub violation: Option<(u64, Violation, Value)>,
+}
+
+impl<E: Engine> DynEngine for E {
+    fn engine_name(&self) -> &'static str {
+        self.name()
+    }
+
+    fn run_range(&self, tag: &str, seed: u64, tier: Tier, offset: u64, stride: u64, runs: u64, cap: Duration, progress: &mut dyn FnMut(u64)) -> WorkerOut {
+        let start = Instant::now();
+        let mut stats = Stats::default();
+        let mut done = 0;
+        let mut violation = None;
+        let mut i = offset;
+        while i < runs {
+            if start.elapsed() > cap {
+                stats.inc("batch_stopped_by_time_cap");
+                break;
+            }
+            progress(i);
+            let mut r = rng::stream(seed, tag, i);
+            let sc = self.generate(&mut r, tier);
+            if i < 3 {
+                stats.sample(json!({"run": i, "scenario": serde_json::to_value(&sc).unwrap()}));
+            }
+            let res = self.execute(&sc, &mut stats);
+            done += 1;
+            if let Some((v, pinned)) = res {
+                violation = Some((i, v, serde_json::to_value(&pinned).unwrap()));
+                break;
+            }
+            i += stride;
+        }
+        WorkerOut {
+            runs: done,
+            stats,
+            violation,
+        }
+    }
+
+    fn minimise_dyn(&self, sc: Value, v: Violation, budget: Duration) -> (Value, Violation, u64, usize, usize) {
+        let sc: E::Sc = serde_json::from_value(sc).expect("scenario round trip");
+        let before = self.size(&sc);
+        let (m, v, steps) = minimise(self, sc, v, budget);
+        let after = self.size(&m);
+        (serde_json::to_value(&m).unwrap(), v, steps, before, after)
+    }
+
+    fn replay_dyn(&self, sc: &Value) -> Result<Option<Violation>, String> {
+        let sc: E::Sc = serde_json::from_value(sc.clone()).map_err(|e| format!("replay file does not parse: {e}"))?;
+        let mut st = Stats::default();
+        Ok(self.execute(&sc, &mut st).map(|(v, _)| v))
+    }
+
+    fn generate_dyn(&self, tag: &str, seed: u64, tier: Tier, index: u64) -> Value {
+        let mut r = rng::stream(seed, tag, index);
+        serde_json::to_value(self.generate(&mut r, tier)).unwrap()
+    }
+
+    fn log_run(&self, tag: &str, seed: u64, tier: Tier, index: u64) -> String {
+        let mut r = rng::stream(seed, tag, index);
+        let sc = self.generate(&mut r, tier);
+        let mut st = Stats::default();
+        let res = self.execute(&sc, &mut st);
+        let mut counters = String::new();
+        for (k, v) in &st.counters {
+            counters.push_str(&format!("{k}={v};"));
+        }
+        let mut fps = String::new();
+        for (k, b) in &st.distinct {
+            fps.push_str(&format!("{k}={:x};", rng::fnv(&b.to_bytes())));
+        }
+        format!(
+            "{index} sc={:x} res={} counters[{counters}] fps[{fps}]",
+            rng::fnv(serde_json::to_string(&sc).unwrap().as_bytes()),
+            match res {
+                Some((v, p)) => format!("{}|{}|{:x}", v.class, v.detail, rng::fnv(serde_json::to_string(&p).unwrap().as_bytes())),
+                None => "ok".to_string(),
+            }
+        )
+    }
 }
 
 pub fn workers() -> usize {
@@ -117,57 +318,207 @@ pub fn workers() -> usize {
         .unwrap_or_else(|| std::thread::available_parallelism().map(|n| n.get()).unwrap_or(4))
 }
 
-/// Runs `runs` seeded scenarios on all workers. Run `i` depends only on
-/// (seed, tag, i). Stops early at the lowest-index violation.
-pub fn run_batch<E: Engine>(e: &E, tag: &str, seed: u64, runs: u64, tier: Tier, cap: Duration) -> BatchOut<E::Sc> {
-    let next = AtomicU64::new(0);
-    let stop_at = AtomicU64::new(u64::MAX);
-    let done = AtomicU64::new(0);
-    let found: Mutex<Option<(u64, Violation, E::Sc)>> = Mutex::new(None);
-    let all_stats: Mutex<Stats> = Mutex::new(Stats::default());
+pub fn verif_root() -> String {
+    std::env::var("VERIF_ROOT").unwrap_or_else(|_| "/verif".to_string())
+}
+
+fn ipc_dir() -> String {
+    let d = format!("{}/sim/target/ipc", verif_root());
+    let _ = std::fs::create_dir_all(&d);
+    d
+}
+
+#[derive(Serialize, Deserialize)]
+struct WorkerFile {
+    runs: u64,
+    counters: BTreeMap<String, u64>,
+    notes: Vec<String>,
+    samples: Vec<Value>,
+    bitmaps: Vec<(String, String)>,
+    violation: Option<(u64, Violation, Value)>,
+}
+
+/// Entry point of a worker process:
+/// `gsim worker <engine-key> <tag> <seed> <tier> <offset> <stride> <runs> <cap_s> <outfile>`
+/// (`args` starts at `<tag>`). Prints the index of every run it starts (heartbeat).
+pub fn worker_main(e: &dyn DynEngine, args: &[String]) -> i32 {
+    let tag = &args[0];
+    let seed: u64 = args[1].parse().unwrap();
+    let tier = Tier::parse(&args[2]).unwrap();
+    let offset: u64 = args[3].parse().unwrap();
+    let stride: u64 = args[4].parse().unwrap();
+    let runs: u64 = args[5].parse().unwrap();
+    let cap: u64 = args[6].parse().unwrap();
+    let outfile = &args[7];
+    let stdout = std::io::stdout();
+    let mut lock = stdout.lock();
+    let mut last_beat = Instant::now();
+    let out = e.run_range(tag, seed, tier, offset, stride, runs, Duration::from_secs(cap), &mut |i| {
+        let _ = writeln!(lock, "{i}");
+        if last_beat.elapsed() > Duration::from_millis(50) || i == offset {
+            let _ = lock.flush();
+            last_beat = Instant::now();
+        }
+    });
+    let _ = lock.flush();
+    let mut bitmaps = Vec::new();
+    for (n, (k, b)) in out.stats.distinct.iter().enumerate() {
+        let path = format!("{outfile}.{n}.bits");
+        std::fs::write(&path, b.to_bytes()).expect("write bitmap");
+        bitmaps.push((k.clone(), path));
+    }
+    let wf = WorkerFile {
+        runs: out.runs,
+        counters: out.stats.counters,
+        notes: out.stats.notes.into_iter().collect(),
+        samples: out.stats.samples,
+        bitmaps,
+        violation: out.violation,
+    };
+    std::fs::write(outfile, serde_json::to_vec(&wf).unwrap()).expect("write worker result");
+    0
+}
+
+pub struct BatchOut {
+    pub runs: u64,
+    pub stats: Stats,
+    pub violation: Option<(u64, Violation, Value)>,
+    pub wall: Duration,
+    /// run index at which a worker process stopped making progress (hang)
+    pub hung_at: Option<u64>,
+}
+
+/// Runs `runs` seeded scenarios on worker processes. Run `i` depends only on
+/// (seed, tag, i); the reported violation is the one with the lowest index.
+pub fn run_batch(engine_key: &str, tag: &str, seed: u64, runs: u64, tier: Tier, cap: Duration) -> BatchOut {
     let start = Instant::now();
-    let nw = workers();
-    std::thread::scope(|s| {
-        for _ in 0..nw {
-            s.spawn(|| {
-                let mut stats = Stats::default();
-                loop {
-                    let i = next.fetch_add(1, Ordering::SeqCst);
-                    if i >= runs || i >= stop_at.load(Ordering::SeqCst) {
-                        break;
-                    }
-                    if start.elapsed() > cap {
-                        stats.inc("batch_stopped_by_time_cap");
-                        break;
-                    }
-                    let mut r = rng::stream(seed, tag, i);
-                    let sc = e.generate(&mut r, tier);
-                    if i < 3 {
-                        stats.sample(json!({"run": i, "scenario": serde_json::to_value(&sc).unwrap()}));
-                    }
-                    let res = e.execute(&sc, &mut stats);
-                    done.fetch_add(1, Ordering::SeqCst);
-                    if let Some((v, pinned)) = res {
-                        let mut f = found.lock().unwrap();
-                        let better = match &*f {
-                            Some((j, _, _)) => i < *j,
-                            None => true,
-                        };
-                        if better {
-                            *f = Some((i, v, pinned));
-                            stop_at.fetch_min(i, Ordering::SeqCst);
+    let nw = workers().min(runs.max(1) as usize).max(1);
+    let exe = std::env::current_exe().unwrap();
+    let dir = ipc_dir();
+    let pid = std::process::id();
+    let stop_at = Arc::new(AtomicU64::new(u64::MAX));
+    let hung: Arc<Mutex<Option<u64>>> = Arc::new(Mutex::new(None));
+    let stall_limit = Duration::from_secs(
+        std::env::var("GSIM_STALL_S").ok().and_then(|s| s.parse().ok()).unwrap_or(60),
+    );
+    let mut handles = Vec::new();
+    for w in 0..nw {
+        let outfile = format!("{dir}/{pid}-{}-{w}.json", tag.replace('/', "_"));
+        let _ = std::fs::remove_file(&outfile);
+        let mut child = Command::new(&exe)
+            .arg("worker")
+            .arg(engine_key)
+            .arg(tag)
+            .arg(seed.to_string())
+            .arg(tier.as_str())
+            .arg(w.to_string())
+            .arg(nw.to_string())
+            .arg(runs.to_string())
+            .arg(cap.as_secs().to_string())
+            .arg(&outfile)
+            .stdout(Stdio::piped())
+            .stdin(Stdio::null())
+            .spawn()
+            .expect("spawn worker process");
+        let stdout = child.stdout.take().unwrap();
+        let child = Arc::new(Mutex::new(child));
+        let last = Arc::new(Mutex::new((Instant::now(), u64::MAX)));
+        let reader = {
+            let last = last.clone();
+            let stop_at = stop_at.clone();
+            let child = child.clone();
+            std::thread::spawn(move || {
+                let br = BufReader::new(stdout);
+                for line in br.lines() {
+                    let Ok(line) = line else { break };
+                    if let Ok(i) = line.trim().parse::<u64>() {
+                        *last.lock().unwrap() = (Instant::now(), i);
+                        if i > stop_at.load(Ordering::SeqCst) {
+                            let _ = child.lock().unwrap().kill();
+                            break;
                         }
                     }
                 }
-                all_stats.lock().unwrap().merge(stats);
-            });
+            })
+        };
+        handles.push((child, reader, last, outfile));
+    }
+    let mut results: Vec<Option<WorkerFile>> = (0..nw).map(|_| None).collect();
+    let mut finished = vec![false; nw];
+    loop {
+        let mut all = true;
+        for (w, (child, _, last, outfile)) in handles.iter().enumerate() {
+            if finished[w] {
+                continue;
+            }
+            let exited = child.lock().unwrap().try_wait().ok().flatten().is_some();
+            if exited {
+                finished[w] = true;
+                if let Ok(bytes) = std::fs::read(outfile) {
+                    if let Ok(wf) = serde_json::from_slice::<WorkerFile>(&bytes) {
+                        if let Some((i, _, _)) = &wf.violation {
+                            stop_at.fetch_min(*i, Ordering::SeqCst);
+                        }
+                        results[w] = Some(wf);
+                    }
+                }
+                continue;
+            }
+            all = false;
+            let (t, i) = *last.lock().unwrap();
+            if t.elapsed() > stall_limit {
+                let _ = child.lock().unwrap().kill();
+                let mut h = hung.lock().unwrap();
+                let idx = if i == u64::MAX { w as u64 } else { i };
+                if h.map(|x| idx < x).unwrap_or(true) {
+                    *h = Some(idx);
+                }
+                stop_at.fetch_min(idx, Ordering::SeqCst);
+            } else if i != u64::MAX && i > stop_at.load(Ordering::SeqCst) {
+                let _ = child.lock().unwrap().kill();
+            }
         }
-    });
+        if all {
+            break;
+        }
+        std::thread::sleep(Duration::from_millis(5));
+    }
+    let mut stats = Stats::default();
+    let mut total = 0;
+    let mut violation: Option<(u64, Violation, Value)> = None;
+    for (w, (child, reader, _, outfile)) in handles.into_iter().enumerate() {
+        let _ = child.lock().unwrap().wait();
+        let _ = reader.join();
+        if let Some(wf) = results[w].take() {
+            total += wf.runs;
+            let mut s = Stats {
+                counters: wf.counters,
+                notes: wf.notes.into_iter().collect(),
+                samples: wf.samples,
+                ..Default::default()
+            };
+            for (k, path) in wf.bitmaps {
+                if let Ok(b) = std::fs::read(&path) {
+                    s.distinct.insert(k, Bitmap::from_bytes(&b));
+                }
+                let _ = std::fs::remove_file(&path);
+            }
+            stats.merge(s);
+            if let Some((i, v, sc)) = wf.violation {
+                if violation.as_ref().map(|x| i < x.0).unwrap_or(true) {
+                    violation = Some((i, v, sc));
+                }
+            }
+        }
+        let _ = std::fs::remove_file(&outfile);
+    }
+    let hung_at = *hung.lock().unwrap();
     BatchOut {
-        runs: done.load(Ordering::SeqCst),
-        stats: all_stats.into_inner().unwrap(),
-        violation: found.into_inner().unwrap(),
+        runs: total,
+        stats,
+        violation,
         wall: start.elapsed(),
+        hung_at,
     }
 }
 
@@ -186,11 +537,11 @@ pub fn minimise<E: Engine>(e: &E, sc: E::Sc, v: Violation, budget: Duration) -> 
             if start.elapsed() > budget {
                 break 'outer;
             }
-            if e.size(&cand) > e.size(&cur) {
+            if e.size(&cand) >= e.size(&cur) {
                 continue;
             }
             if let Some((v2, pinned)) = e.execute(&cand, &mut dummy) {
-                if v2.class == viol.class {
+                if v2.class == viol.class && e.size(&pinned) < e.size(&cur) {
                     cur = pinned;
                     viol = v2;
                     steps += 1;
@@ -206,6 +557,7 @@ pub fn minimise<E: Engine>(e: &E, sc: E::Sc, v: Violation, budget: Duration) -> 
 #[derive(Serialize, Deserialize)]
 pub struct ReplayFile {
     pub property: String,
+    /// engine key (names the engine and its configuration)
     pub engine: String,
     pub seed: u64,
     pub run: u64,
@@ -213,31 +565,20 @@ pub struct ReplayFile {
     pub scenario: Value,
 }
 
-pub fn verif_root() -> String {
-    std::env::var("VERIF_ROOT").unwrap_or_else(|_| "/verif".to_string())
-}
-
-pub fn write_replay<S: Serialize>(prop: &str, engine: &str, seed: u64, run: u64, v: &Violation, sc: &S) -> String {
+pub fn write_replay(prop: &str, engine_key: &str, seed: u64, run: u64, v: &Violation, sc: &Value) -> String {
     let dir = format!("{}/replay", verif_root());
     let _ = std::fs::create_dir_all(&dir);
-    let path = format!("{dir}/{prop}-{engine}-{seed}-{run}.json");
+    let path = format!("{dir}/{prop}-{}-{seed}-{run}.json", engine_key.replace(':', "_"));
     let rf = ReplayFile {
         property: prop.to_string(),
-        engine: engine.to_string(),
+        engine: engine_key.to_string(),
         seed,
         run,
         violation: v.clone(),
-        scenario: serde_json::to_value(sc).unwrap(),
+        scenario: sc.clone(),
     };
     std::fs::write(&path, serde_json::to_string_pretty(&rf).unwrap()).expect("write replay file");
     path
-}
-
-/// Re-executes a replay file in this process. Returns the violation observed.
-pub fn replay_scenario<E: Engine>(e: &E, rf: &ReplayFile) -> Result<Option<Violation>, String> {
-    let sc: E::Sc = serde_json::from_value(rf.scenario.clone()).map_err(|e| format!("replay file does not parse: {e}"))?;
-    let mut st = Stats::default();
-    Ok(e.execute(&sc, &mut st).map(|(v, _)| v))
 }
 
 pub struct Evidence<'a> {
@@ -290,9 +631,9 @@ pub fn stats_json(s: &Stats) -> Value {
     }
     let mut distinct = serde_json::Map::new();
     for (k, v) in &s.distinct {
-        distinct.insert(k.clone(), json!(v.len()));
+        distinct.insert(k.clone(), json!(v.count()));
     }
-    json!({"counters": counters, "distinct": distinct, "notes": s.notes})
+    json!({"counters": counters, "distinct_lower_bounds": distinct, "notes": s.notes})
 }
 
 /// development aid: restrict generation to one flavour (never set by the registered checks)
